@@ -10,6 +10,7 @@ import Rc.Model.Notif
 import Rc.Lemmas.Header
 import Rc.Lemmas.OpenTotal
 import Rc.Lemmas.OpenEnc
+import Rc.Lemmas.OpenRfc
 
 namespace Rc.Thm.C03
 open Rc Rc.Open
@@ -149,20 +150,60 @@ private theorem notif_decode_encodeT (t c s : UInt8) (d : Bytes) (h : 21 + d.len
     congr 1
     simp [UInt8.toNat_ofNat']; omega
 
-/-- decode ∘ encode for NOTIFICATION: every code, subcode and data (up to the
-65535-byte limit of the length field) is accepted and reported exactly;
-`details().raw()` is (code, subcode) except that codes 0 and 4 carry no
-subcode (`rawOf`, C18's known finding K1). -/
-theorem notif_decode_encode (c s : UInt8) (d : Bytes) (h : 21 + d.length < 65536) :
+/-- The property's NOTIFICATION clause at full strength: every code, subcode and data (up to the
+65535-byte limit of the length field) is accepted and code, SUBCODE and data are reported exactly
+(`details().raw()` = (code, subcode)).  False of the code as it is – `notif_decode_statement_fails`:
+`Details::Reserved` and `Details::HoldTimerExpired` have no field for the subcode, so for codes 0
+and 4 `details()` drops it (known finding K1, filed under C18 and C03). -/
+def NotifDecodeStatement : Prop :=
+  ∀ (c s : UInt8) (d : Bytes), 21 + d.length < 65536 →
+    let m := encNotif c s d
+    Notif.fromOctets m = .ok m ∧ Notif.code m = .ok c ∧ Notif.detailsRaw m = .ok (c, s) ∧
+    Notif.data m = .ok (if d = [] then none else some d) ∧ Notif.length m = .ok (21 + d.length)
+
+/-- what the decoder does report, for every NOTIFICATION: `rawOf` = (code, subcode) except that
+codes 0 and 4 lose the subcode -/
+theorem notif_decode_encode_raw (c s : UInt8) (d : Bytes) (h : 21 + d.length < 65536) :
     let m := encNotif c s d
     Notif.fromOctets m = .ok m ∧ Notif.code m = .ok c ∧ Notif.detailsRaw m = .ok (Notif.rawOf c s) ∧
     Notif.data m = .ok (if d = [] then none else some d) ∧ Notif.length m = .ok (21 + d.length) :=
   notif_decode_encodeT 3 c s d h
 
+/-- witness: Hold Timer Expired (4) with subcode 7 is reported as subcode 0 -/
+theorem notif_decode_statement_fails : ¬ NotifDecodeStatement := by
+  intro h
+  have h1 := (h 4 7 [] (by decide)).2.2.1
+  have h2 := (notif_decode_encode_raw 4 7 [] (by decide)).2.2.1
+  rw [h2] at h1
+  revert h1
+  decide
+
+/-- decode ∘ encode for NOTIFICATION with exactly the exclusion of K1: for every code other than
+0 and 4 – and for 0 and 4 when the subcode is 0, the only value RFC 4271 uses with them – code,
+subcode and data are reported exactly; acceptance, code, data and length hold for every
+NOTIFICATION whatsoever. -/
+theorem notif_decode_encode_partial (c s : UInt8) (d : Bytes) (h : 21 + d.length < 65536)
+    (hk : (c.toNat ≠ 0 ∧ c.toNat ≠ 4) ∨ s = 0) :
+    let m := encNotif c s d
+    Notif.fromOctets m = .ok m ∧ Notif.code m = .ok c ∧ Notif.detailsRaw m = .ok (c, s) ∧
+    Notif.data m = .ok (if d = [] then none else some d) ∧ Notif.length m = .ok (21 + d.length) := by
+  have := notif_decode_encode_raw c s d h
+  have e : Notif.rawOf c s = (c, s) := by
+    unfold Notif.rawOf
+    rcases hk with hk | hk
+    · have : ¬ (c.toNat = 0 ∨ c.toNat = 4) := by omega
+      simp [this]
+    · subst hk; split <;> rfl
+  rw [e] at this
+  exact this
+
 example : (21 + ([1, 2, 3] : Bytes).length < 65536) := by decide
 
 /-- A NOTIFICATION produced by `NotificationBuilder` decodes back to the
-values it was built from (`Details` given as code/subcode, optional data). -/
+values it was built from.  The builder is given a `Details` value; the model takes (code,
+subcode) and forms the `Details` as the harness's `details_of` does, so for codes 0 and 4
+(`Details::Reserved`, `Details::HoldTimerExpired`: no subcode field) what it was built from is
+(code, 0) = `rawOf`; `Details::Unimplemented(c, s)` with c ≤ 7 is not in this domain. -/
 theorem notif_builder_roundtrip (c s : UInt8) (d : Option Bytes) (bs : Bytes)
     (h : Notif.build c s d = .ok bs) :
     Notif.fromOctets bs = .ok bs ∧ Notif.code bs = .ok c ∧
@@ -180,7 +221,7 @@ theorem notif_builder_roundtrip (c s : UInt8) (d : Option Bytes) (bs : Bytes)
       simp only [Outcome.ok.injEq] at h
       have e : encNotif c (Notif.rawOf c s).2 (d.getD []) = bs := by
         rw [← h, hc1]; simp [encNotif]
-      have := notif_decode_encode c (Notif.rawOf c s).2 (d.getD []) (by omega)
+      have := notif_decode_encode_raw c (Notif.rawOf c s).2 (d.getD []) (by omega)
       simp only [e, hraw] at this
       exact ⟨this.1, this.2.1, this.2.2.1, this.2.2.2.1⟩
 
@@ -602,6 +643,139 @@ theorem wfCap_examples :
   · intro a b c d; exact ⟨by simp, by simp [capContent]⟩
   · intro v hv
     refine ⟨⟨hv, ?_⟩, ⟨hv, ?_⟩, ⟨hv, ?_⟩⟩ <;> simp [capContent]
+
+/-! ## the same through `Message::from_octets` (the dispatch on the header's type octet) -/
+
+/-- The clause "for every well-formed OPEN, NOTIFICATION, KEEPALIVE and ROUTE-REFRESH message
+decoding succeeds", read at `Message::from_octets`.  False of the code as it is for
+ROUTE-REFRESH: the arm for type 5 returns `Err(ParseError::Unsupported)` although
+`Message::RouteRefresh` and `RouteRefreshMessage::from_octets` exist (known finding K13;
+repairing it changes what a live session does with a received ROUTE-REFRESH, see DESIGN 14.3). -/
+def MsgRouteRefreshStatement : Prop :=
+  ∀ x : Notif.RouteRefresh, x.afi < 65536 → x.safi < 256 → x.subtype < 256 →
+    Notif.msgFromOctets (Notif.rrEncode x) ≠ .err
+
+theorem msg_routerefresh_statement_fails : ¬ MsgRouteRefreshStatement := by
+  intro h
+  exact h ⟨1, 1, 0⟩ (by decide) (by decide) (by decide) (by decide)
+
+/-- the provable part: a well-formed OPEN (any `WfOpen`, hence any RFC-formed one), every
+NOTIFICATION and the KEEPALIVE are dispatched to their decoders and accepted as what they are -/
+theorem message_dispatch_partial :
+    (∀ (f : Fields) (l : List PSpec), WfOpen f l →
+      Notif.msgFromOctets (encOpen f (l.map PSpec.toParam)) = .ok (.open, encOpen f (l.map PSpec.toParam))) ∧
+    (∀ (c s : UInt8) (d : Bytes), 21 + d.length < 65536 →
+      Notif.msgFromOctets (encNotif c s d) = .ok (.notification, encNotif c s d)) ∧
+    Notif.msgFromOctets Notif.kaBuild = .ok (.keepalive, Notif.kaBuild) := by
+  refine ⟨?_, ?_, ?_⟩
+  · intro f l hw
+    have h := (open_decode_encode f l hw).1
+    have hlen : 29 + (encParams (l.map PSpec.toParam)).length < 65536 := by have := hw.2.2.2.2; omega
+    unfold Notif.msgFromOctets
+    have hp : headerParse (encOpen f (l.map PSpec.toParam)) =
+        some (29 + (encParams (l.map PSpec.toParam)).length, 1,
+          [f.ver] ++ be16 f.asn2 ++ be16 f.ht ++ f.id ++
+            [UInt8.ofNat (encParams (l.map PSpec.toParam)).length] ++ encParams (l.map PSpec.toParam)) := by
+      have := headerParse_header (29 + (encParams (l.map PSpec.toParam)).length) 1
+        ([f.ver] ++ be16 f.asn2 ++ be16 f.ht ++ f.id ++
+            [UInt8.ofNat (encParams (l.map PSpec.toParam)).length] ++ encParams (l.map PSpec.toParam)) hlen
+      simpa [encOpen, encOpenRaw] using this
+    rw [hp]
+    simp only [show (1 : UInt8).toNat = 1 from rfl]
+    rw [h]
+  · intro c s d hd
+    have h := (notif_decode_encode_raw c s d hd).1
+    unfold Notif.msgFromOctets
+    have hp : headerParse (encNotif c s d) = some (21 + d.length, 3, [c, s] ++ d) := by
+      have := headerParse_header (21 + d.length) 3 ([c, s] ++ d) hd
+      simpa [encNotif] using this
+    rw [hp]
+    simp only [show (3 : UInt8).toNat = 3 from rfl]
+    rw [h]
+  · decide
+
+/-! ### well-formed = as the capability's defining document says (audit finding H1)
+
+`WfCap` above is the decoder's own content rule.  `RfcCap` (Rc/Lemmas/OpenRfc.lean) is written
+from the RFCs / drafts that define the capabilities (value forms of all 21 content-checked codes;
+any value for code 0 and unknown codes); `rfcCap_wf` proves every RFC-formed capability is one the
+decoder accepts, so the decode-after-encode theorem holds for every RFC-formed OPEN. -/
+
+/-- an OPEN whose fields fit their widths, whose parameters fit the one-octet lengths, and whose
+capabilities all have the form their defining document prescribes -/
+def RfcOpen (f : Fields) (l : List PSpec) : Prop :=
+  f.asn2 < 65536 ∧ f.ht < 65536 ∧ f.id.length = 4 ∧
+  (∀ p ∈ l, match p with
+    | .caps cs => (∀ c ∈ cs, c.value.length ≤ 255 ∧ RfcCap c.code.toNat c.value = true) ∧
+                  (encCaps cs).length ≤ 255
+    | .other t v => t.toNat ≠ 2 ∧ v.length ≤ 255) ∧
+  (encParams (l.map PSpec.toParam)).length ≤ 255
+
+theorem rfcOpen_wf (f : Fields) (l : List PSpec) (h : RfcOpen f l) : WfOpen f l := by
+  obtain ⟨h1, h2, h3, h4, h5⟩ := h
+  refine ⟨h1, h2, h3, ?_, h5⟩
+  intro p hp
+  have := h4 p hp
+  cases p with
+  | caps cs => exact ⟨fun c hc => rfcCap_wf c (this.1 c hc).1 (this.1 c hc).2, this.2⟩
+  | other t v => exact this
+
+/-- **decode ∘ encode for every RFC-formed OPEN** (the property's first clause with "well-formed"
+read off the RFCs, not off the decoder): accepted, and every accessor reports what was encoded. -/
+theorem open_decode_encode_rfc (f : Fields) (l : List PSpec) (hw : RfcOpen f l) :
+    let m := encOpen f (l.map PSpec.toParam)
+    fromOctets m = .ok m ∧
+    version m = .ok f.ver ∧ asn2 m = .ok f.asn2 ∧ holdtime m = .ok f.ht ∧
+    identifier m = .ok f.id ∧
+    (parameters m >>= collect) = .ok (l.map PSpec.toParam) ∧
+    (capabilities m >>= collect) = .ok (allCaps l) ∧
+    myAsn m = (match (allCaps l).find? (fun c => c.code.toNat == 65) with
+               | some c => be32val c.value
+               | none => .ok f.asn2) ∧
+    fourOctetCapable m = .ok ((allCaps l).any (fun c => c.code.toNat == 65)) ∧
+    multiprotocolIds m = .ok (mpSpec (allCaps l)) ∧
+    addpathFamiliesVec m = apLoop (allCaps l) false := by
+  intro m
+  have h := open_decode_encode f l (rfcOpen_wf f l hw)
+  exact ⟨h.1, h.2.2.1, h.2.2.2.1, h.2.2.2.2.1, h.2.2.2.2.2.1, h.2.2.2.2.2.2.2.1, h.2.2.2.2.2.2.2.2.1,
+    h.2.2.2.2.2.2.2.2.2.1, h.2.2.2.2.2.2.2.2.2.2.1, h.2.2.2.2.2.2.2.2.2.2.2.1, h.2.2.2.2.2.2.2.2.2.2.2.2.1⟩
+
+/-- **the ADD-PATH family list, end to end**: an RFC-formed OPEN reports, as
+`addpath_families_vec()`, exactly the (AFI, SAFI, Send/Receive) tuples of all its ADD-PATH
+capabilities in wire order (`apAll`/`apEntries`: the RFC 7911 reading, 4 octets per tuple, written
+without the decoder's `chunks`/`try_from` steps). -/
+theorem addpath_end_to_end (f : Fields) (l : List PSpec) (hw : RfcOpen f l) :
+    addpathFamiliesVec (encOpen f (l.map PSpec.toParam)) = .ok (apAll (allCaps l)) := by
+  have h := (open_decode_encode_rfc f l hw).2.2.2.2.2.2.2.2.2.2
+  rw [h]
+  apply apLoop_ok_spec
+  apply apSpec_of_form
+  intro c hc h69
+  simp only [allCaps, List.mem_flatMap] at hc
+  obtain ⟨p, hp, hcp⟩ := hc
+  have := hw.2.2.2.1 p hp
+  cases p with
+  | caps cs =>
+    have hr := (this.1 c hcp).2
+    simp only [RfcCap, h69, Bool.and_eq_true] at hr
+    exact hr.2
+  | other t v => simp [PSpec.capList] at hcp
+
+/-- an RFC-formed OPEN with a Paths-Limit capability in its draft form (AFI 16388 = BGP-LS,
+SAFI 71, limit 10 – rejected before the fix), a graceful-restart, an ORF capability with two
+blocks, host name, software version and an ADD-PATH capability -/
+example : RfcOpen ⟨4, 23456, 90, [10, 0, 0, 1]⟩
+    [.caps [⟨76, [0x40, 4, 71, 0, 10]⟩, ⟨64, [0x40, 120, 0, 1, 1, 0x80]⟩],
+     .caps [⟨3, [0, 1, 0, 1, 1, 64, 3, 0, 2, 0, 1, 0]⟩, ⟨73, [1, 97, 2, 98, 99]⟩, ⟨75, [2, 118, 49]⟩,
+            ⟨69, [0, 1, 1, 3, 0, 2, 1, 1]⟩]] := by
+  refine ⟨by decide, by decide, by decide, ?_, by decide⟩
+  intro p hp
+  simp at hp
+  rcases hp with rfl | rfl
+  · refine ⟨?_, by decide⟩
+    intro c hc; simp at hc; rcases hc with rfl | rfl <;> decide
+  · refine ⟨?_, by decide⟩
+    intro c hc; simp at hc; rcases hc with rfl | rfl | rfl | rfl <;> decide
 
 /-! ## OpenBuilder -/
 
